@@ -3,10 +3,23 @@
 package lib
 
 // Correspondence + property oracle for C06: covert strings × generated policies against the real
-// ParseOrResolveBlocklisted / ingestRegistration / Proxy, with a scripted fake DNS server installed as
-// net.DefaultResolver.  The same cases go to the Lean model as `covert|…` lines, each carrying the
-// answers the real standard-library calls gave (ParseIP, SplitHostPort, ParseUint, ResolveIPAddr,
-// Contains, MatchString).
+// ParseOrResolveBlocklisted / ingestRegistration / Proxy.
+//
+//   - The resolver is a scripted in-process DNS server installed as net.DefaultResolver (no sockets, no
+//     timeouts): every name can be answered differently at every lookup.
+//   - The dialed address is OBSERVED: the harness re-executes itself in a private network namespace in
+//     which every IPv4 and IPv6 address is local (`ip route add local 0.0.0.0/0 dev lo`), listens on the
+//     ports of the grid and records the destination address of every connection the real Proxy makes.
+//     Without the namespace (no privileges) only loopback destinations are observed.
+//   - After every admission a second registration for the same session (same secret, phantom and
+//     transport) with another covert string is ingested, names are re-pointed, and the stored
+//     registration is dialed.
+//   - Two and three ingest workers for one session are interleaved at the scheduling points of
+//     ingestRegistration (verifhook), all schedules.
+//
+// The same cases go to the Lean model as `covert|…` / `csched|…` lines, each carrying the answers the
+// real standard-library calls gave (ParseIP, SplitHostPort, ParseUint, ResolveIPAddr, Contains,
+// MatchString, IP.String).
 
 import (
 	"context"
@@ -20,6 +33,7 @@ import (
 	golog "log"
 	"net"
 	"os"
+	"os/exec"
 	"regexp"
 	"sort"
 	"strconv"
@@ -29,6 +43,7 @@ import (
 	"testing"
 	"time"
 
+	"github.com/refraction-networking/conjure/internal/verifhook"
 	"github.com/refraction-networking/conjure/internal/vlib"
 	"github.com/refraction-networking/conjure/pkg/core"
 	"github.com/refraction-networking/conjure/pkg/station/log"
@@ -38,47 +53,142 @@ import (
 )
 
 // ---------------------------------------------------------------------------------------------
-// scripted fake DNS server (UDP, loopback), installed as net.DefaultResolver
+// private network namespace in which every address is local
 
-type c06DNS struct {
-	conn    *net.UDPConn
-	gen     atomic.Int64 // which generation of answers is served
-	mu      sync.Mutex
-	script  map[string][][]string // lower-case name without trailing dot -> per generation -> addresses
-	queries map[string]int        // A-queries seen per name
-	total   int
+const c06NetnsEnv = "VERIF_C06_NETNS"
+
+// c06RunInNetns re-executes this test binary inside a new network namespace. It returns true when the
+// child ran the harness (its verdict is then this test's verdict).
+func c06RunInNetns(t *testing.T) bool {
+	unshare, err1 := exec.LookPath("unshare")
+	_, err2 := exec.LookPath("ip")
+	if err1 != nil || err2 != nil {
+		return false
+	}
+	if err := exec.Command(unshare, "-n", "true").Run(); err != nil {
+		return false
+	}
+	cmd := exec.Command(unshare, append([]string{"-n", "--", os.Args[0]}, os.Args[1:]...)...)
+	cmd.Env = append(os.Environ(), c06NetnsEnv+"=1")
+	cmd.Stdout, cmd.Stderr = os.Stdout, os.Stderr
+	err := cmd.Run()
+	if err == nil {
+		return true
+	}
+	if ee, ok := err.(*exec.ExitError); ok && ee.ExitCode() == 77 {
+		return false // the namespace could not be configured: run without it
+	}
+	t.Fatalf("the harness run inside the network namespace failed: %v", err)
+	return true
 }
 
-func newC06DNS(t *testing.T) *c06DNS {
-	c, err := net.ListenUDP("udp", &net.UDPAddr{IP: net.IPv4(127, 0, 0, 1)})
-	if err != nil {
-		t.Fatalf("cannot listen on loopback for the fake DNS server: %v", err)
+// c06SetupNetns makes every address local to the (private) namespace and gives the loopback
+// interface two documentation addresses, so that covert_blocklist_public_addrs has something to list.
+func c06SetupNetns() bool {
+	for _, args := range [][]string{
+		{"link", "set", "lo", "up"},
+		{"route", "add", "local", "0.0.0.0/0", "dev", "lo"},
+		{"-6", "route", "add", "local", "::/0", "dev", "lo"},
+	} {
+		if out, err := exec.Command("ip", args...).CombinedOutput(); err != nil {
+			fmt.Printf("netns setup: ip %s: %v %s\n", strings.Join(args, " "), err, out)
+			return false
+		}
 	}
-	d := &c06DNS{conn: c, script: map[string][][]string{}, queries: map[string]int{}}
-	go d.serve()
-	addr := c.LocalAddr().String()
+	_ = exec.Command("ip", "addr", "add", "203.0.113.1/24", "dev", "lo").Run()
+	_ = exec.Command("ip", "-6", "addr", "add", "2001:db8:ffff::1/64", "dev", "lo").Run()
+	return true
+}
+
+// ---------------------------------------------------------------------------------------------
+// scripted in-process DNS server, installed as net.DefaultResolver
+
+type c06DNS struct {
+	gen    atomic.Int64 // base generation of answers
+	mu     sync.Mutex
+	script map[string][][]string // lower-case name without trailing dot -> per generation -> addresses
+	seen   map[string]int        // (name, qtype) queries seen since beginCall
+	total  int
+}
+
+func newC06DNS() *c06DNS {
+	d := &c06DNS{script: map[string][][]string{}, seen: map[string]int{}}
 	net.DefaultResolver = &net.Resolver{
 		PreferGo: true,
 		Dial: func(ctx context.Context, network, address string) (net.Conn, error) {
-			var dl net.Dialer
-			return dl.DialContext(ctx, "udp", addr)
+			return &c06DNSConn{d: d, resp: make(chan []byte, 4), closed: make(chan struct{})}, nil
 		},
 	}
 	return d
 }
 
-func (d *c06DNS) serve() {
-	buf := make([]byte, 1500)
-	for {
-		n, from, err := d.conn.ReadFromUDP(buf)
-		if err != nil {
-			return
-		}
-		if resp := d.answer(buf[:n]); resp != nil {
-			_, _ = d.conn.WriteToUDP(resp, from)
+// beginCall starts a new call of the code under test: within one call the k-th lookup of a name is
+// answered from generation gen+k, so a second lookup inside the same call sees another answer.
+func (d *c06DNS) beginCall() {
+	d.mu.Lock()
+	d.seen = map[string]int{}
+	d.mu.Unlock()
+}
+
+// c06DNSConn is a packet connection to the in-process server: a written query is answered at once.
+type c06DNSConn struct {
+	d      *c06DNS
+	resp   chan []byte
+	closed chan struct{}
+	once   sync.Once
+	dmu    sync.Mutex
+	dl     time.Time
+}
+
+type c06Addr struct{}
+
+func (c06Addr) Network() string { return "udp" }
+func (c06Addr) String() string  { return "in-process-dns" }
+
+func (c *c06DNSConn) Write(b []byte) (int, error) {
+	if r := c.d.answer(b); r != nil {
+		select {
+		case c.resp <- r:
+		default:
 		}
 	}
+	return len(b), nil
 }
+func (c *c06DNSConn) Read(b []byte) (int, error) {
+	c.dmu.Lock()
+	dl := c.dl
+	c.dmu.Unlock()
+	var timer <-chan time.Time
+	if !dl.IsZero() {
+		tm := time.NewTimer(time.Until(dl))
+		defer tm.Stop()
+		timer = tm.C
+	}
+	select {
+	case r := <-c.resp:
+		return copy(b, r), nil
+	case <-c.closed:
+		return 0, net.ErrClosed
+	case <-timer:
+		return 0, os.ErrDeadlineExceeded
+	}
+}
+func (c *c06DNSConn) ReadFrom(b []byte) (int, net.Addr, error) {
+	n, err := c.Read(b)
+	return n, c06Addr{}, err
+}
+func (c *c06DNSConn) WriteTo(b []byte, _ net.Addr) (int, error) { return c.Write(b) }
+func (c *c06DNSConn) Close() error                              { c.once.Do(func() { close(c.closed) }); return nil }
+func (c *c06DNSConn) LocalAddr() net.Addr                       { return c06Addr{} }
+func (c *c06DNSConn) RemoteAddr() net.Addr                      { return c06Addr{} }
+func (c *c06DNSConn) SetDeadline(t time.Time) error {
+	c.dmu.Lock()
+	c.dl = t
+	c.dmu.Unlock()
+	return nil
+}
+func (c *c06DNSConn) SetReadDeadline(t time.Time) error  { return c.SetDeadline(t) }
+func (c *c06DNSConn) SetWriteDeadline(t time.Time) error { return nil }
 
 func (d *c06DNS) answer(q []byte) []byte {
 	if len(q) < 12 || binary.BigEndian.Uint16(q[4:6]) != 1 {
@@ -110,9 +220,9 @@ func (d *c06DNS) answer(q []byte) []byte {
 	name := strings.ToLower(strings.Join(labels, "."))
 	d.mu.Lock()
 	gens, known := d.script[name]
-	if qtype == 1 {
-		d.queries[name]++
-	}
+	key := fmt.Sprintf("%s/%d", name, qtype)
+	k := d.seen[key]
+	d.seen[key]++
 	d.total++
 	d.mu.Unlock()
 	resp := make([]byte, 0, 512)
@@ -122,7 +232,7 @@ func (d *c06DNS) answer(q []byte) []byte {
 		resp[3] = 0x83 // NXDOMAIN
 		return resp
 	}
-	g := int(d.gen.Load())
+	g := int(d.gen.Load()) + k
 	if g >= len(gens) {
 		g = len(gens) - 1
 	}
@@ -147,37 +257,109 @@ func (d *c06DNS) answer(q []byte) []byte {
 	return resp
 }
 
-func (d *c06DNS) aQueries(name string) int {
-	d.mu.Lock()
-	defer d.mu.Unlock()
-	return d.queries[strings.ToLower(strings.TrimSuffix(name, "."))]
-}
-
 func (d *c06DNS) totalQueries() int {
 	d.mu.Lock()
 	defer d.mu.Unlock()
 	return d.total
 }
 
+// per name: the answers of successive generations (= of successive lookups within one call, and of
+// the re-pointed state in which the stored registration is dialed)
 var c06Script = map[string][][]string{
-	"ok.test":        {{"198.51.100.7"}},
-	"ok6.test":       {{"2001:db8:1::7"}},
-	"both.test":      {{"198.51.100.8", "2001:db8:1::8"}},
-	"blocked.test":   {{"10.1.2.3"}},
-	"loop.test":      {{"127.0.0.1"}},
-	"loop6.test":     {{"::1"}},
-	"rebind.test":    {{"198.51.100.9"}, {"127.0.0.1"}},
-	"rebind2.test":   {{"10.0.0.5"}, {"198.51.100.9"}},
-	"rebind6.test":   {{"2001:db8:1::9"}, {"::1"}},
-	"mapped.test":    {{"::ffff:10.0.0.1"}},
-	"zero.test":      {{"0.0.0.0"}},
-	"multi.test":     {{"198.51.100.10", "10.0.0.9"}, {"10.0.0.9", "198.51.100.10"}},
-	"empty.test":     {{}},
-	"blocked.com":    {{"198.51.100.11"}},
-	"x.blocked.com":  {{"198.51.100.12"}},
-	"blocked.com.au": {{"198.51.100.13"}},
-	"upper.test":     {{"198.51.100.14"}},
+	"ok.test":            {{"198.51.100.7"}},
+	"ok6.test":           {{"2001:db8:1::7"}},
+	"both.test":          {{"198.51.100.8", "2001:db8:1::8"}},
+	"blocked.test":       {{"10.1.2.3"}},
+	"loop.test":          {{"127.0.0.1"}},
+	"loop6.test":         {{"::1"}},
+	"rebind.test":        {{"198.51.100.9"}, {"127.0.0.1"}},
+	"rebind2.test":       {{"10.0.0.5"}, {"198.51.100.9"}},
+	"rebind6.test":       {{"2001:db8:1::9"}, {"::1"}},
+	"rebind3.test":       {{"198.51.100.20"}, {"10.9.9.9"}, {"198.51.100.21"}},
+	"rebindloop.test":    {{"127.0.0.1"}, {"127.0.0.2"}},
+	"mapped.test":        {{"::ffff:10.0.0.1"}},
+	"zero.test":          {{"0.0.0.0"}},
+	"zero6.test":         {{"::"}},
+	"multi.test":         {{"198.51.100.10", "10.0.0.9"}, {"10.0.0.9", "198.51.100.10"}},
+	"empty.test":         {{}},
+	"blocked.com":        {{"198.51.100.11"}},
+	"x.blocked.com":      {{"198.51.100.12"}},
+	"blocked.com.au":     {{"198.51.100.13"}},
+	"upper.test":         {{"198.51.100.14"}},
 	"xn--bcher-kva.test": {{"198.51.100.15"}},
+}
+
+// ---------------------------------------------------------------------------------------------
+// dial recorder: listeners that record the destination address of every accepted connection
+
+type c06Recorder struct {
+	anyIP bool // every address is local (private namespace)
+	ports map[int]bool
+	ch    chan *net.TCPAddr
+	ls    []net.Listener
+}
+
+func newC06Recorder(anyIP bool, out *vlib.Out) *c06Recorder {
+	rec := &c06Recorder{anyIP: anyIP, ports: map[int]bool{}, ch: make(chan *net.TCPAddr, 64)}
+	want := []int{0}
+	if anyIP {
+		want = []int{80, 443, 65535, 0}
+	}
+	for _, p := range want {
+		l, err := net.Listen("tcp", fmt.Sprintf(":%d", p))
+		if err != nil {
+			out.Note(fmt.Sprintf("dial recorder: cannot listen on port %d: %v", p, err))
+			continue
+		}
+		rec.ls = append(rec.ls, l)
+		rec.ports[l.Addr().(*net.TCPAddr).Port] = true
+		go func(l net.Listener) {
+			for {
+				c, err := l.Accept()
+				if err != nil {
+					return
+				}
+				if a, ok := c.LocalAddr().(*net.TCPAddr); ok {
+					select {
+					case rec.ch <- a:
+					default:
+					}
+				}
+				c.Close()
+			}
+		}(l)
+	}
+	return rec
+}
+
+// freePort is the recorder's ephemeral port (for cases that may pick their port)
+func (rec *c06Recorder) freePort() int {
+	best := 0
+	for p := range rec.ports {
+		if p != 80 && p != 443 && p != 65535 {
+			best = p
+		}
+	}
+	return best
+}
+
+func (rec *c06Recorder) drain() (got []*net.TCPAddr) {
+	for {
+		select {
+		case a := <-rec.ch:
+			got = append(got, a)
+		default:
+			return
+		}
+	}
+}
+
+// reachable: would a connection to ip:port arrive at one of the recorder's listeners
+func (rec *c06Recorder) reachable(ip net.IP, port int) bool {
+	if !rec.ports[port] {
+		return false
+	}
+	return rec.anyIP || ip.IsLoopback() || ip.IsUnspecified()
 }
 
 // ---------------------------------------------------------------------------------------------
@@ -185,16 +367,22 @@ var c06Script = map[string][][]string{
 
 type c06Policy struct {
 	block, allow, domains []string
+	public                bool // covert_blocklist_public_addrs
 }
 
 func (p c06Policy) String() string {
-	return "B=" + strings.Join(p.block, ",") + ";A=" + strings.Join(p.allow, ",") + ";D=" + strings.Join(p.domains, ",")
+	s := "B=" + strings.Join(p.block, ",") + ";A=" + strings.Join(p.allow, ",") + ";D=" + strings.Join(p.domains, ",")
+	if p.public {
+		s += ";P=1"
+	}
+	return s
 }
 
 var c06BlockPool = []string{"127.0.0.0/8", "10.0.0.0/8", "::1/128", "fc00::/7", "fe80::/10", "192.0.2.0/24", "198.51.100.0/24",
-	"2001:db8::/32", "0.0.0.0/0", "::/0", "::ffff:10.0.0.0/104", "0.0.0.0/32", "198.51.100.7/32", "2001:db8:1::/48", "172.16.0.0/12", "::/128", "127.0.0.1/32"}
+	"2001:db8::/32", "0.0.0.0/0", "::/0", "::ffff:10.0.0.0/104", "0.0.0.0/32", "198.51.100.7/32", "2001:db8:1::/48", "172.16.0.0/12", "::/128", "127.0.0.1/32",
+	"127.0.0.2/32", "198.51.100.20/30"}
 var c06AllowPool = []string{"198.51.100.0/24", "2001:db8:1::/48", "127.0.0.1/32", "10.0.0.0/8", "0.0.0.0/0", "::/0", "192.0.2.0/25", "2001:db8::/32", "198.51.100.8/31", "fe80::/10"}
-var c06DomainPool = []string{"localhost", `.*blocked\.com$`, "^$", "test$", "(?i)^LOCAL", "^ok", `\d+\.\d+`, "%", "^rebind", `^\[`, ":"}
+var c06DomainPool = []string{"localhost", `.*blocked\.com$`, "^$", "test$", "(?i)^LOCAL", "^ok", `\d+\.\d+`, "%", "^rebind", `^\[`, ":", `^198\.51\.100\.`, `^2001:db8:1:`, `^127\.`}
 
 var c06FixedPolicies = []c06Policy{
 	{},
@@ -202,11 +390,13 @@ var c06FixedPolicies = []c06Policy{
 	{block: []string{"127.0.0.0/8", "10.0.0.0/8", "::1/128", "fe80::/10"}, domains: []string{`.*blocked\.com$`, "localhost"}},
 	{allow: []string{"198.51.100.0/24", "2001:db8:1::/48"}},
 	{allow: []string{"127.0.0.1/32"}},
+	{block: []string{"10.0.0.0/8"}, public: true}, // covert_blocklist_public_addrs: the interfaces' own networks
 	{block: []string{"198.51.100.0/24"}, allow: []string{"198.51.100.0/25", "10.0.0.0/8"}},
 	{block: []string{"0.0.0.0/0", "::/0"}},
 	{allow: []string{"0.0.0.0/0"}, domains: []string{"^$"}},
 	{block: []string{"10.0.0.0/8"}, domains: []string{"test$", `\d+\.\d+`}},
 	{block: []string{"::ffff:10.0.0.0/104", "0.0.0.0/32", "::/128"}},
+	{allow: []string{"127.0.0.0/8", "203.0.113.0/24"}, public: true}, // … overridden by an allowlist
 }
 
 var c06Hosts = []string{
@@ -214,14 +404,14 @@ var c06Hosts = []string{
 	"", "[", "]", "[]", "[::1", "::1]", "[[::1]]",
 	// IPv4 literals and look-alikes
 	"198.51.100.7", "10.0.0.1", "127.0.0.1", "127.0.0.2", "0.0.0.0", "255.255.255.255", "192.0.2.200", "001.2.3.4", "1.2.3", "127.1",
-	"0x7f.0.0.1", "2130706433", "017700000001", "1.2.3.4.", "1.2.3.4.5", "１.２.３.４", " 10.0.0.1", "10.0.0.1 ",
+	"0x7f.0.0.1", "2130706433", "017700000001", "1.2.3.4.", "1.2.3.4.5", "１.２.３.４", " 10.0.0.1", "10.0.0.1 ", "203.0.113.1", "203.0.113.77",
 	// IPv6 literals in several textual forms
 	"2001:db8:1::7", "2001:DB8:1:0:0:0:0:7", "2001:0db8:0001:0000:0000:0000:0000:0007", "::1", "0:0:0:0:0:0:0:1", "::", "fe80::1", "fc00::1",
-	"::ffff:10.0.0.1", "::ffff:a00:1", "::FFFF:198.51.100.7", "::10.0.0.1", "64:ff9b::10.0.0.1", "2001:db8::", "2001:db8:1::7:",
+	"::ffff:10.0.0.1", "::ffff:a00:1", "::FFFF:198.51.100.7", "::10.0.0.1", "64:ff9b::10.0.0.1", "2001:db8::", "2001:db8:1::7:", "::ffff:0.0.0.0", "::ffff:127.0.0.1",
 	// zones
 	"fe80::1%lo", "fe80::1%eth0", "fe80::1%", "fe80::1%25lo", "2001:db8:1::7%lo", "::ffff:10.0.0.1%eth0", "::ffff:198.51.100.7%lo", "::1%lo", "10.0.0.1%lo", "fe80::1%lo%lo",
 	// hostnames (scripted)
-	"ok.test", "ok6.test", "both.test", "blocked.test", "loop.test", "loop6.test", "rebind.test", "rebind2.test", "rebind6.test", "mapped.test", "zero.test",
+	"ok.test", "ok6.test", "both.test", "blocked.test", "loop.test", "loop6.test", "rebind.test", "rebind2.test", "rebind6.test", "rebind3.test", "rebindloop.test", "mapped.test", "zero.test", "zero6.test",
 	"multi.test", "empty.test", "nx.test", "blocked.com", "x.blocked.com", "blocked.com.au", "UPPER.TEST", "ok.test.", "localhost", "LOCALHOST", "localhost.",
 	"xn--bcher-kva.test", "bücher.test", "a b.test", "ok.test\x00", "-ok.test", strings.Repeat("a", 64) + ".test", strings.Repeat("a.", 130) + "test",
 	// garbage
@@ -229,6 +419,10 @@ var c06Hosts = []string{
 }
 
 var c06Ports = []string{"80", "443", "0", "65535", "65536", "080", "-1", "+80", "http", "", "99999999999999999999", " 80", "80 ", "８０", "8_0", "0x50", "80\n"}
+
+// covert strings of the re-sent registration (`%d` = the port of the first registration, so that a
+// dial of it lands on a recorder)
+var c06DupPool = []string{"127.0.0.1:%d", "10.1.2.3:%d", "blocked.test:%d", "rebind.test:%d", "[::1]:%d", "198.51.100.99:%d", "loop.test:%d", "no port here", "", "0.0.0.0:%d", "ok.test:%d"}
 
 // frame builds a covert string from host and port in one of several framings
 func c06Frame(host, port string, framing int) string {
@@ -252,9 +446,12 @@ func c06Frame(host, port string, framing int) string {
 // one case
 
 type c06World struct {
+	t       *testing.T
 	dns     *c06DNS
+	rec     *c06Recorder
 	logger  *log.Logger
 	nextSec uint64
+	ifaces  []*net.IPNet
 }
 
 type c06Parsed struct {
@@ -266,13 +463,38 @@ type c06Parsed struct {
 	domain []*regexp.Regexp
 }
 
+// the networks of the local interfaces, as the harness sees them (oracle side of
+// covert_blocklist_public_addrs)
+func c06InterfaceNets() []*net.IPNet {
+	var nets []*net.IPNet
+	ifs, err := net.Interfaces()
+	if err != nil {
+		return nil
+	}
+	for _, i := range ifs {
+		addrs, err := i.Addrs()
+		if err != nil {
+			continue
+		}
+		for _, a := range addrs {
+			if n, ok := a.(*net.IPNet); ok {
+				nets = append(nets, n)
+			}
+		}
+	}
+	return nets
+}
+
 func (w *c06World) parsePolicy(p c06Policy) *c06Parsed {
 	conf := &RegConfig{
-		CovertBlocklistSubnets: append([]string(nil), p.block...),
-		CovertAllowlistSubnets: append([]string(nil), p.allow...),
-		CovertBlocklistDomains: append([]string(nil), p.domains...),
+		CovertBlocklistSubnets:     append([]string(nil), p.block...),
+		CovertAllowlistSubnets:     append([]string(nil), p.allow...),
+		CovertBlocklistDomains:     append([]string(nil), p.domains...),
+		CovertBlocklistPublicAddrs: p.public,
 	}
-	conf.ParseBlocklists()
+	if err := conf.ParseBlocklists(); err != nil {
+		w.t.Fatalf("the harness' policy pools must be accepted by ParseBlocklists: %v (policy %s)", err, p.String())
+	}
 	pp := &c06Parsed{pol: p, conf: conf}
 	for _, s := range p.block {
 		_, n, err := net.ParseCIDR(s)
@@ -280,6 +502,9 @@ func (w *c06World) parsePolicy(p c06Policy) *c06Parsed {
 			panic("harness policy pool must parse: " + s)
 		}
 		pp.block = append(pp.block, n)
+	}
+	if p.public {
+		pp.block = append(pp.block, w.ifaces...)
 	}
 	for _, s := range p.allow {
 		_, n, err := net.ParseCIDR(s)
@@ -304,10 +529,14 @@ func (w *c06World) parsePolicy(p c06Policy) *c06Parsed {
 	return pp
 }
 
-func (w *c06World) newReg(covert string) *DecoyRegistration {
+func (w *c06World) newSecret() []byte {
 	w.nextSec++
 	sec := make([]byte, 32)
 	binary.BigEndian.PutUint64(sec, w.nextSec)
+	return sec
+}
+
+func (w *c06World) newReg(covert string, sec []byte) *DecoyRegistration {
 	src := pb.RegistrationSource_API
 	var tp Transport = min.Transport{}
 	return &DecoyRegistration{
@@ -368,16 +597,22 @@ func (pp *c06Parsed) domainBlocked(host string) bool {
 	return false
 }
 
-// runC06 runs one covert string under one policy and DNS generation.
-func (w *c06World) runC06(out *vlib.Out, pp *c06Parsed, provided string, gen int) {
-	w.dns.gen.Store(int64(gen))
-	conf := pp.conf
-	replay := fmt.Sprintf("c06|gen=%d|%s|%s", gen, pp.pol.String(), hex.EncodeToString([]byte(provided)))
-	fail := func(sig, what string) { out.OracleFail(sig, what+" — covert "+strconv.Quote(provided)+" policy "+pp.pol.String(), replay) }
+// the answers of the standard library about one covert string (oracle parameters of the model): the
+// eight per-worker fields of a model line, and how many DNS queries one resolution of the host costs
+type c06Answers struct {
+	fields     []string
+	host, port string
+	splitErr   error
+	resKind    string
+	dnsPerRes  int
+	consumes   bool // ParseOrResolveBlocklisted gets as far as the resolver with this string
+}
 
-	// ---- the answers of the standard library (oracle parameters of the model)
+func (w *c06World) answers(conf *RegConfig, provided string) c06Answers {
+	var a c06Answers
 	providedIsIP := net.ParseIP(provided) != nil
 	host, port, splitErr := net.SplitHostPort(provided)
+	a.host, a.port, a.splitErr = host, port, splitErr
 	splitF, domF, portOkF, hostIsIPF, resF, blockF, allowF := "E", "-", "0", "0", "E", "-", "-"
 	if splitErr == nil {
 		var dh []bool
@@ -396,14 +631,22 @@ func (w *c06World) runC06(out *vlib.Out, pp *c06Parsed, provided string, gen int
 			splitF = c06Hex(host) + ",-" // the port text is not used when it does not parse
 		}
 		hostIsIPF = vlib.B(net.ParseIP(host) != nil)
+		a.consumes = !providedIsIP && perr == nil && !strings.Contains(domF, "1")
+		w.dns.beginCall()
+		q0 := w.dns.totalQueries()
 		addr, rerr := net.ResolveIPAddr("ip", host)
+		a.dnsPerRes = w.dns.totalQueries() - q0
 		switch {
 		case rerr != nil:
 			resF = "E"
 		case addr == nil:
 			resF = "N"
 		default:
-			resF = fmt.Sprintf("A,%s,%s,%s", vlib.B(addr.IP == nil), c06Hex(addr.Zone), c06Hex(addr.String()))
+			text := ""
+			if addr.IP != nil {
+				text = addr.IP.String()
+			}
+			resF = fmt.Sprintf("A,%s,%s,%s", vlib.B(addr.IP == nil), c06Hex(addr.Zone), c06Hex(text))
 			var bh, ah []bool
 			for _, n := range conf.covertBlocklistSubnets {
 				bh = append(bh, n.Contains(addr.IP))
@@ -423,78 +666,257 @@ func (w *c06World) runC06(out *vlib.Out, pp *c06Parsed, provided string, gen int
 	if domF == "-" && len(conf.covertBlocklistDomains) > 0 {
 		domF = strings.Repeat("0", len(conf.covertBlocklistDomains))
 	}
-	line := strings.Join([]string{"covert", vlib.B(conf.enableCovertAllowlist), vlib.B(providedIsIP), splitF, domF, portOkF, hostIsIPF, resF, blockF, allowF}, "|")
+	a.resKind = resF[:1]
+	a.fields = []string{vlib.B(providedIsIP), splitF, domF, portOkF, hostIsIPF, resF, blockF, allowF}
+	return a
+}
+
+// literal evaluates an (accepted or stored) covert string with the real library: is it a literal
+// IP:port that the policy permits. problem is "" or a signature.
+func (pp *c06Parsed) literal(s string) (ip net.IP, port int, problem, detail string) {
+	oh, op, err := net.SplitHostPort(s)
+	ip = net.ParseIP(oh)
+	if err != nil || ip == nil {
+		problem = "non-literal"
+		if err == nil && oh == "" {
+			problem = "empty-host"
+		} else if strings.Contains(oh, "%") {
+			problem = "zone"
+		}
+		return nil, 0, problem, strconv.Quote(s) + " is not a literal IP:port (net.Dial would resolve or default the host)"
+	}
+	p, perr := strconv.ParseUint(op, 10, 16)
+	if perr != nil {
+		return ip, 0, "bad-port", strconv.Quote(s) + ": the port is not a uint16"
+	}
+	ok, inBlock, inAllow := pp.permitted(ip)
+	if !ok {
+		problem = "blocklisted"
+		if len(pp.allow) > 0 {
+			problem = "outside-allowlist"
+		}
+		return ip, int(p), problem, fmt.Sprintf("%q: inBlocklist=%v inAllowlist=%v", s, inBlock, inAllow)
+	}
+	return ip, int(p), "", ""
+}
+
+// dial runs the real Proxy on a stored registration after the names were re-pointed and reports the
+// destination of every connection it made and the DNS queries it caused.
+func (w *c06World) dial(stored *DecoyRegistration) (dests []*net.TCPAddr, dnsQueries int) {
+	w.dns.beginCall()
+	w.dns.gen.Store(1)
+	w.rec.drain()
+	q0 := w.dns.totalQueries()
+	client, station := net.Pipe()
+	done := make(chan struct{})
+	go func() {
+		defer close(done)
+		defer func() { _ = recover() }()
+		Proxy(stored, station, w.logger)
+	}()
+	select {
+	case a := <-w.rec.ch:
+		dests = append(dests, a)
+	case <-done:
+	case <-time.After(10 * time.Second):
+	}
+	client.Close()
+	select {
+	case <-done:
+	case <-time.After(10 * time.Second):
+	}
+	station.Close()
+	dests = append(dests, w.rec.drain()...)
+	return dests, w.dns.totalQueries() - q0
+}
+
+// mayDial: the harness only lets the real Proxy dial when the connection cannot leave the machine
+func (w *c06World) mayDial(covert string) bool {
+	h, p, err := net.SplitHostPort(covert)
+	if err != nil {
+		return false
+	}
+	port, perr := strconv.ParseUint(p, 10, 16)
+	if perr != nil || !w.rec.ports[int(port)] {
+		return false
+	}
+	if w.rec.anyIP {
+		return true // private namespace: every destination is local, names resolve in-process
+	}
+	ip := net.ParseIP(h)
+	return ip != nil && (ip.IsLoopback() || ip.IsUnspecified())
+}
+
+// runC06 runs one covert string under one policy and DNS generation; dup is the covert string of the
+// registration that is re-sent for the same session afterwards ("\x00" = none).
+func (w *c06World) runC06(out *vlib.Out, pp *c06Parsed, provided string, gen int, dup string) {
+	w.dns.gen.Store(int64(gen))
+	conf := pp.conf
+	replay := fmt.Sprintf("c06|gen=%d|%s|%s|%s", gen, pp.pol.String(), hex.EncodeToString([]byte(provided)), hex.EncodeToString([]byte(dup)))
+	fail := func(sig, what string) { out.OracleFail(sig, what+" — covert "+strconv.Quote(provided)+" policy "+pp.pol.String(), replay) }
+
+	// ---- the answers of the standard library (oracle parameters of the model)
+	a := w.answers(conf, provided)
+	host, port, splitErr := a.host, a.port, a.splitErr
 
 	// ---- the implementation
-	q0 := w.dns.aQueries(host)
+	w.dns.gen.Store(int64(gen))
+	w.dns.beginCall()
+	q0 := w.dns.totalQueries()
 	got, lookup := conf.ParseOrResolveBlocklisted(provided)
-	q1 := w.dns.aQueries(host)
-	reg := w.newReg(provided)
+	n1 := w.dns.totalQueries() - q0
+	sec := w.newSecret()
+	reg := w.newReg(provided, sec)
+	w.dns.beginCall()
+	q1 := w.dns.totalQueries()
 	pp.rm.ingestRegistration(reg)
-	q2 := w.dns.aQueries(host)
+	n2 := w.dns.totalQueries() - q1
+	first := pp.rm.registeredDecoys.RegistrationExists(reg)
+	firstValid := first != nil && first.Valid
+	firstCovert := ""
+	if first != nil {
+		firstCovert = first.Covert
+	}
+	// ---- the same session registers again with another covert string
+	dupF := "-"
+	if dup != "\x00" {
+		dupF = "D"
+		w.dns.beginCall()
+		pp.rm.ingestRegistration(w.newReg(dup, sec))
+	}
 	stored := pp.rm.registeredDecoys.RegistrationExists(reg)
 	valid := stored != nil && stored.Valid
-	storedF, dialF := "-", "-"
+	storedF := "-"
 	if valid {
 		storedF = c06Hex(stored.Covert)
-		dialF = c06Hex(stored.Covert) // Proxy dials reg.Covert verbatim: checked on the source by c06CheckDialSite
 	}
-	out.Case(line, c06Hex(got)+"|"+vlib.B(lookup)+"|"+storedF+"|"+dialF, got != "")
+	// ---- names are re-pointed, then the stored registration is dialed by the real Proxy
+	var dests []*net.TCPAddr
+	dialDNS, dialed := 0, false
+	dialIn, dialOut := "-", "-"
+	if valid && w.mayDial(stored.Covert) {
+		dialed = true
+		dests, dialDNS = w.dial(stored)
+		if len(dests) > 0 || dialDNS > 0 {
+			// what the standard library says about the string that was handed to net.Dial
+			sh, sp, _ := net.SplitHostPort(stored.Covert)
+			hostIsIP := net.ParseIP(sh) != nil
+			if hostIsIP {
+				sh = net.ParseIP(sh).String()
+			}
+			if pn, err := strconv.ParseUint(sp, 10, 16); err == nil {
+				sp = strconv.FormatUint(pn, 10)
+			}
+			dialIn = "O," + c06Hex(sh) + "," + sp + "," + vlib.B(hostIsIP)
+			switch {
+			case dialDNS > 0:
+				dialOut = "R"
+			case len(dests) == 1:
+				dialOut = "L," + c06Hex(dests[0].IP.String()) + "," + strconv.Itoa(dests[0].Port)
+			default:
+				dialOut = "M"
+			}
+		}
+	}
+	lookups := strconv.Itoa(n1)
+	if a.dnsPerRes > 0 {
+		if n1%a.dnsPerRes == 0 {
+			lookups = strconv.Itoa(n1 / a.dnsPerRes)
+		} else {
+			lookups = fmt.Sprintf("%d/%d", n1, a.dnsPerRes)
+		}
+	}
+	line := "covert|" + vlib.B(conf.enableCovertAllowlist) + "|" + strings.Join(a.fields, "|") + "|" + dupF + "|" + dialIn + "|" + vlib.B(a.dnsPerRes > 0)
+	out.Case(line, c06Hex(got)+"|"+vlib.B(lookup)+"|"+lookups+"|"+storedF+"|"+vlib.B(valid)+"|"+dialOut, got != "")
 
 	// ---- property oracle, evaluated on the OUTPUT string with the real library
 	out.Checked()
+	var checkedIP net.IP
+	checkedPort := 0
 	if got == "" {
 		out.Count("out:rejected")
-		if valid {
-			fail("C06:rejected-covert-registered", "the covert was rejected but the registration became valid with covert "+strconv.Quote(stored.Covert))
+		if firstValid {
+			fail("C06:rejected-covert-registered", "the covert was rejected but the registration became valid with covert "+strconv.Quote(firstCovert))
 		}
 	} else {
 		out.Count("out:accepted")
-		oh, op, err := net.SplitHostPort(got)
-		ip := net.ParseIP(oh)
-		switch {
-		case err != nil || ip == nil:
-			sig := "C06:accepted-non-literal"
-			if oh == "" {
-				sig = "C06:accepted-empty-host"
-			} else if strings.Contains(oh, "%") {
-				sig = "C06:accepted-zone"
-			}
-			fail(sig, "accepted as "+strconv.Quote(got)+", which is not a literal IP:port (net.Dial would resolve or default the host)")
-		default:
-			if _, perr := strconv.ParseUint(op, 10, 16); perr != nil {
-				fail("C06:accepted-bad-port", "accepted as "+strconv.Quote(got)+" whose port is not a uint16")
-			}
-			ok, inBlock, inAllow := pp.permitted(ip)
-			if !ok {
-				sig := "C06:accepted-blocklisted"
-				if len(pp.allow) > 0 {
-					sig = "C06:accepted-outside-allowlist"
-				}
-				fail(sig, fmt.Sprintf("accepted as %q: inBlocklist=%v inAllowlist=%v", got, inBlock, inAllow))
-			} else if inBlock {
+		ip, p, problem, detail := pp.literal(got)
+		checkedIP, checkedPort = ip, p
+		if problem != "" {
+			fail("C06:accepted-"+problem, "accepted as "+detail)
+		} else {
+			if _, inBlock, _ := pp.permitted(ip); inBlock {
 				// documented override: an allowlisted address inside a blocklisted subnet (not an alarm)
 				out.Count("policy:allowlist-overrides-blocklist")
 			}
-			// the literal must be in the canonical form net.Dial treats as a literal: no second resolution
-			if net.JoinHostPort(ip.String(), op) != got {
-				fail("C06:accepted-non-canonical", "accepted as "+strconv.Quote(got)+", not the canonical text of its IP")
+			// the standard-library contracts the theorem accepted_parses_back is stated under:
+			// SplitHostPort(JoinHostPort(ip.String(), port)) and ParseIP(ip.String()) give the address back.
+			// A literal in another textual form is still a literal (no alarm; the correspondence shows it).
+			oh, op, _ := net.SplitHostPort(got)
+			if net.JoinHostPort(ip.String(), op) != got || !net.ParseIP(ip.String()).Equal(ip) || oh != ip.String() {
+				out.Count("out:literal-not-in-canonical-text")
 			}
 		}
 		if splitErr != nil || pp.domainBlocked(host) {
 			fail("C06:accepted-blocked-domain", "accepted although the host "+strconv.Quote(host)+" matches a blocklisted pattern or does not split")
 		}
-		if !valid {
+		if !firstValid {
 			fail("C06:accepted-not-admitted", "the covert was accepted but the registration did not become valid")
-		} else if stored.Covert != got {
-			fail("C06:stored-differs", "the registration stores "+strconv.Quote(stored.Covert)+" but the checked address was "+strconv.Quote(got))
+		} else if firstCovert != got {
+			fail("C06:stored-differs", "the registration stores "+strconv.Quote(firstCovert)+" but the checked address was "+strconv.Quote(got))
 		}
 	}
-	// names are resolved once per admission
-	if q1-q0 > 1 || q2-q1 > 1 {
-		fail("C06:resolved-more-than-once", fmt.Sprintf("%d / %d lookups of %q during one admission", q1-q0, q2-q1, host))
+	// ---- a re-sent registration changes neither validity nor the checked address
+	if dup != "\x00" {
+		out.Checked()
+		switch {
+		case !firstValid && valid:
+			fail("C06:rejected-covert-registered", "after the session registered again with covert "+strconv.Quote(dup)+" the registration became valid with covert "+strconv.Quote(stored.Covert))
+		case firstValid && !valid:
+			out.Count("dup:invalidated") // not this property's concern (C07/C08)
+		case firstValid && stored.Covert != firstCovert:
+			fail("C06:resent-registration-changes-covert", "the registration stored the checked address "+strconv.Quote(firstCovert)+"; after the session registered again with covert "+
+				strconv.Quote(dup)+" it stores "+strconv.Quote(stored.Covert)+", which was never checked")
+		}
 	}
-	// a well-formed permitted literal is accepted unchanged
+	// ---- whatever is valid now must hold a permitted literal
+	if valid {
+		out.Checked()
+		if _, _, problem, detail := pp.literal(stored.Covert); problem != "" {
+			fail("C06:valid-registration-unchecked-covert:"+problem, "a valid registration holds the covert "+detail)
+		}
+	}
+	// ---- the dial: every connection goes to the checked address, which policy permits; no DNS at dial time
+	if dialed {
+		out.Checked()
+		if dialDNS > 0 {
+			fail("C06:resolved-at-dial", fmt.Sprintf("the proxy sent %d DNS queries when dialing the stored covert %q", dialDNS, stored.Covert))
+		}
+		for _, d := range dests {
+			out.Count("dial:recorded")
+			if ok, inBlock, inAllow := pp.permitted(d.IP); !ok {
+				sig := "C06:dialed-forbidden-address"
+				if checkedIP != nil && checkedIP.IsUnspecified() {
+					sig = "C06:unspecified-address-dials-local-host"
+				}
+				fail(sig, fmt.Sprintf("the proxy connected to %s (inBlocklist=%v inAllowlist=%v); checked address %q, stored covert %q", d, inBlock, inAllow, got, stored.Covert))
+			} else if checkedIP != nil && (!d.IP.Equal(checkedIP) || d.Port != checkedPort) {
+				sig := "C06:dialed-not-checked"
+				if checkedIP.IsUnspecified() {
+					sig = "C06:unspecified-address-dials-local-host"
+				}
+				fail(sig, fmt.Sprintf("the proxy connected to %s but the address that was checked is %q (stored covert %q)", d, got, stored.Covert))
+			}
+		}
+		if len(dests) == 0 {
+			out.Count("dial:no-connection")
+		}
+	}
+	// ---- names are resolved once per admission: never more DNS traffic than one resolution of the host costs
+	if n1 > a.dnsPerRes || n2 > a.dnsPerRes {
+		fail("C06:resolved-more-than-once", fmt.Sprintf("%d / %d DNS queries for %q during one admission; one resolution costs %d", n1, n2, host, a.dnsPerRes))
+	}
+	// ---- a well-formed permitted literal is accepted unchanged
 	if splitErr == nil {
 		if hip := net.ParseIP(host); hip != nil && net.JoinHostPort(hip.String(), port) == provided {
 			if _, perr := strconv.ParseUint(port, 10, 16); perr == nil && !pp.domainBlocked(host) {
@@ -510,12 +932,13 @@ func (w *c06World) runC06(out *vlib.Out, pp *c06Parsed, provided string, gen int
 	if lookup {
 		out.Count("lookup:1")
 	}
-	out.Count("res:" + resF[:1])
+	out.Count("res:" + a.resKind)
 }
 
 // ---------------------------------------------------------------------------------------------
-// the dial site: Proxy must hand the stored string to net.Dial verbatim, and nothing but the covert
-// step of ingestRegistration may assign to a registration's Covert field (source facts).
+// the dial site: Proxy must hand the stored string to a Dial call verbatim, and nothing but the covert
+// step of ingestRegistration may assign to a registration's Covert field (source facts; the dial
+// itself is observed dynamically by the recorder).
 
 func c06CheckDialSite(out *vlib.Out) {
 	fset := token.NewFileSet()
@@ -524,27 +947,39 @@ func c06CheckDialSite(out *vlib.Out) {
 		out.OracleFail("C06:dial-site-unreadable", err.Error(), "source")
 		return
 	}
-	dialOK, dialSeen := false, 0
+	dialCovert, dialOther := 0, 0
 	var assigns []string
+	isRegCovert := func(e ast.Expr) bool {
+		a, ok := e.(*ast.SelectorExpr)
+		if !ok || a.Sel.Name != "Covert" {
+			return false
+		}
+		r, ok := a.X.(*ast.Ident)
+		return ok && r.Name == "reg"
+	}
 	for _, p := range pkgs {
 		for fname, f := range p.Files {
 			ast.Inspect(f, func(n ast.Node) bool {
 				switch x := n.(type) {
 				case *ast.FuncDecl:
-					if x.Name.Name == "Proxy" && x.Body != nil {
+					if x.Name.Name == "Proxy" && x.Recv == nil && x.Body != nil {
 						ast.Inspect(x.Body, func(m ast.Node) bool {
-							if c, ok := m.(*ast.CallExpr); ok {
-								if sel, ok := c.Fun.(*ast.SelectorExpr); ok && strings.HasPrefix(sel.Sel.Name, "Dial") {
-									if id, ok := sel.X.(*ast.Ident); ok && id.Name == "net" {
-										dialSeen++
-										if len(c.Args) == 2 {
-											if a, ok := c.Args[1].(*ast.SelectorExpr); ok && a.Sel.Name == "Covert" {
-												if r, ok := a.X.(*ast.Ident); ok && r.Name == "reg" {
-													dialOK = true
-												}
-											}
-										}
+							c, ok := m.(*ast.CallExpr)
+							if !ok {
+								return true
+							}
+							// any Dial* call: net.Dial, net.DialTimeout, (&net.Dialer{…}).DialContext, …
+							if sel, ok := c.Fun.(*ast.SelectorExpr); ok && strings.HasPrefix(sel.Sel.Name, "Dial") {
+								has := false
+								for _, a := range c.Args {
+									if isRegCovert(a) {
+										has = true
 									}
+								}
+								if has {
+									dialCovert++
+								} else {
+									dialOther++
 								}
 							}
 							return true
@@ -562,8 +997,8 @@ func c06CheckDialSite(out *vlib.Out) {
 		}
 	}
 	out.Checked()
-	if !dialOK || dialSeen != 1 {
-		out.OracleFail("C06:dial-site", fmt.Sprintf("Proxy does not dial reg.Covert verbatim exactly once (net.Dial* calls: %d, reg.Covert argument: %v)", dialSeen, dialOK), "source proxies.go")
+	if dialCovert != 1 || dialOther != 0 {
+		out.OracleFail("C06:dial-site", fmt.Sprintf("Proxy does not dial reg.Covert verbatim exactly once (Dial* calls with reg.Covert: %d, other Dial* calls: %d)", dialCovert, dialOther), "source proxies.go")
 	}
 	sort.Strings(assigns)
 	if len(assigns) != 1 || !strings.HasPrefix(assigns[0], "registration_ingest.go:") {
@@ -572,104 +1007,248 @@ func c06CheckDialSite(out *vlib.Out) {
 }
 
 // ---------------------------------------------------------------------------------------------
-// DNS rebinding through the real ingest and the real Proxy, observed by loopback dial recorders
+// several ingest workers for ONE session, interleaved at the scheduling points of ingestRegistration
 
-func (w *c06World) rebindDial(t *testing.T, out *vlib.Out) {
-	var l1, l2 net.Listener
-	var err error
-	for try := 0; try < 20; try++ {
-		l1, err = net.Listen("tcp", "127.0.0.1:0")
-		if err != nil {
-			out.Note("loopback listen failed, dial recorder skipped: " + err.Error())
+type c06Sched struct {
+	cur    int
+	parked chan int
+	resume []chan struct{}
+	point  []string
+	fin    []bool
+}
+
+func (s *c06Sched) yield(point string) {
+	i := s.cur
+	s.point[i] = point
+	s.parked <- i
+	<-s.resume[i]
+}
+
+var c06WorkerCoverts = []string{"198.51.100.7:443", "10.1.2.3:443", "ok.test:443", "blocked.test:443", "rebind2.test:443", "rebind.test:443", "no port here", "127.0.0.1:443"}
+var c06SchedPolicies = []c06Policy{
+	{block: []string{"10.0.0.0/8", "127.0.0.0/8"}},
+	{allow: []string{"198.51.100.0/24"}},
+	{block: []string{"198.51.100.0/24"}, domains: []string{"^ok"}},
+}
+
+// runSched runs the workers (one covert string each, same secret) under the schedule (worker indices;
+// a finished worker's turn is a no-op) and runs unfinished workers to completion afterwards.
+func (w *c06World) runSched(out *vlib.Out, pol c06Policy, coverts []string, schedule []int) {
+	pp := w.parsePolicy(pol)
+	n := len(coverts)
+	sec := w.newSecret()
+	regs := make([]*DecoyRegistration, n)
+	ans := make([]c06Answers, n)
+	w.dns.gen.Store(0)
+	for i, c := range coverts {
+		regs[i] = w.newReg(c, sec)
+		ans[i] = w.answers(pp.conf, c)
+	}
+	w.dns.gen.Store(0)
+	var cs []string
+	for _, c := range coverts {
+		cs = append(cs, hex.EncodeToString([]byte(c)))
+	}
+	var ss []string
+	for _, x := range schedule {
+		ss = append(ss, strconv.Itoa(x))
+	}
+	replay := fmt.Sprintf("c06sched|%s|%s|%s", pol.String(), strings.Join(cs, ","), strings.Join(ss, ""))
+	fail := func(sig, what string) {
+		out.OracleFail(sig, what+" — workers "+strconv.Quote(strings.Join(coverts, " | "))+" schedule "+strings.Join(ss, "")+" policy "+pol.String(), replay)
+	}
+	s := &c06Sched{parked: make(chan int), resume: make([]chan struct{}, n), point: make([]string, n), fin: make([]bool, n)}
+	for i := range s.resume {
+		s.resume[i] = make(chan struct{})
+	}
+	verifhook.SetScheduler(s.yield)
+	defer verifhook.SetScheduler(nil)
+	for i := 0; i < n; i++ {
+		go func(i int) {
+			<-s.resume[i]
+			func() {
+				defer func() { _ = recover() }()
+				pp.rm.ingestRegistration(regs[i])
+			}()
+			s.fin[i] = true
+			s.parked <- i
+		}(i)
+	}
+	var full, order []int
+	checkState := func(when string) {
+		st := pp.rm.registeredDecoys.RegistrationExists(regs[0])
+		out.Checked()
+		if st != nil && st.Valid {
+			if _, _, problem, detail := pp.literal(st.Covert); problem != "" {
+				fail("C06:valid-registration-unchecked-covert:"+problem, when+": a valid registration (returned for connections) holds the covert "+detail)
+			}
+		}
+	}
+	turn := func(i int) {
+		full = append(full, i)
+		if s.fin[i] {
 			return
 		}
-		port := l1.Addr().(*net.TCPAddr).Port
-		l2, err = net.Listen("tcp", fmt.Sprintf("127.0.0.2:%d", port))
-		if err == nil {
-			break
+		if s.point[i] == "ingest:after-track" && ans[i].consumes {
+			order = append(order, i) // this segment holds the worker's covert check (one resolver answer)
 		}
-		l1.Close()
-		l1 = nil
+		w.dns.beginCall()
+		s.cur = i
+		s.resume[i] <- struct{}{}
+		<-s.parked
+		checkState(fmt.Sprintf("after step %d (worker %d)", len(full), i))
 	}
-	if l1 == nil || l2 == nil {
-		out.Note("no second loopback address available, dial recorder skipped")
-		return
+	for _, i := range schedule {
+		turn(i)
 	}
-	defer l1.Close()
-	defer l2.Close()
-	port := l1.Addr().(*net.TCPAddr).Port
-	var hits1, hits2 atomic.Int64
-	accept := func(l net.Listener, n *atomic.Int64) {
-		for {
-			c, err := l.Accept()
-			if err != nil {
-				return
+	for i := 0; i < n; i++ {
+		for !s.fin[i] {
+			turn(i)
+		}
+	}
+	verifhook.SetScheduler(nil)
+	stored := pp.rm.registeredDecoys.RegistrationExists(regs[0])
+	valid := stored != nil && stored.Valid
+	storedF, ptr := "-", "-"
+	if stored != nil {
+		ptr = "?"
+		for i := range regs {
+			if regs[i] == stored {
+				ptr = strconv.Itoa(i)
 			}
-			n.Add(1)
-			c.Close()
 		}
 	}
-	go accept(l1, &hits1)
-	go accept(l2, &hits2)
-	w.dns.mu.Lock()
-	w.dns.script["rebind-loop.test"] = [][]string{{"127.0.0.1"}, {"127.0.0.2"}}
-	w.dns.mu.Unlock()
-	for _, pol := range []c06Policy{{}, {allow: []string{"127.0.0.1/32"}}, {block: []string{"127.0.0.2/32"}}} {
-		pp := w.parsePolicy(pol)
-		covert := fmt.Sprintf("rebind-loop.test:%d", port)
-		w.dns.gen.Store(0)
-		reg := w.newReg(covert)
-		pp.rm.ingestRegistration(reg)
-		stored := pp.rm.registeredDecoys.RegistrationExists(reg)
+	if valid {
+		storedF = c06Hex(stored.Covert)
+	}
+	var fs, os2 []string
+	for _, x := range full {
+		fs = append(fs, strconv.Itoa(x))
+	}
+	for _, x := range order {
+		os2 = append(os2, strconv.Itoa(x))
+	}
+	ord := strings.Join(os2, "")
+	if ord == "" {
+		ord = "-"
+	}
+	line := "csched|" + vlib.B(pp.conf.enableCovertAllowlist) + "|" + strings.Join(fs, "") + "|" + ord
+	for i := range ans {
+		line += "|W|" + strings.Join(ans[i].fields, "|")
+	}
+	out.Case(line, storedF+"|"+vlib.B(valid)+"|"+ptr, valid)
+	out.Count("sched:runs")
+	// the dial of what is valid at the end, after the names were re-pointed
+	if valid && w.mayDial(stored.Covert) {
+		dests, dialDNS := w.dial(stored)
 		out.Checked()
-		if stored == nil || !stored.Valid {
-			out.OracleFail("C06:permitted-name-rejected", "a name resolving to a permitted address was not admitted", "rebind "+pol.String())
-			continue
+		if dialDNS > 0 {
+			fail("C06:resolved-at-dial", fmt.Sprintf("the proxy sent %d DNS queries when dialing the stored covert %q", dialDNS, stored.Covert))
 		}
-		// the name now points somewhere policy forbids
-		w.dns.gen.Store(1)
-		qBefore := w.dns.totalQueries()
-		h1, h2 := hits1.Load(), hits2.Load()
-		client, station := net.Pipe()
-		done := make(chan struct{})
-		go func() { Proxy(stored, station, w.logger); close(done) }()
-		deadline := time.Now().Add(3 * time.Second)
-		for hits1.Load() == h1 && hits2.Load() == h2 && time.Now().Before(deadline) {
-			time.Sleep(2 * time.Millisecond)
+		for _, d := range dests {
+			out.Count("dial:recorded")
+			if ok, inBlock, inAllow := pp.permitted(d.IP); !ok {
+				fail("C06:dialed-forbidden-address", fmt.Sprintf("the proxy connected to %s (inBlocklist=%v inAllowlist=%v), stored covert %q", d, inBlock, inAllow, stored.Covert))
+			}
 		}
-		client.Close()
-		select {
-		case <-done:
-		case <-time.After(5 * time.Second):
-		}
-		station.Close()
-		if hits2.Load() != h2 || hits1.Load() != h1+1 {
-			out.OracleFail("C06:dialed-not-checked", fmt.Sprintf("after the name was re-pointed the proxy dialed 127.0.0.1 %d times and 127.0.0.2 %d times (stored covert %q)", hits1.Load()-h1, hits2.Load()-h2, stored.Covert), "rebind "+pol.String())
-		}
-		if w.dns.totalQueries() != qBefore {
-			out.OracleFail("C06:resolved-at-dial", "the proxy sent DNS queries when dialing the stored covert "+strconv.Quote(stored.Covert), "rebind "+pol.String())
-		}
-		out.Count("rebind:dial-recorded")
 	}
+}
+
+// all interleavings of the workers' segments (worker i has segs[i] segments)
+func c06Interleavings(segs []int) [][]int {
+	var res [][]int
+	var rec func(cur []int, left []int)
+	rec = func(cur []int, left []int) {
+		doneAll := true
+		for i, l := range left {
+			if l > 0 {
+				doneAll = false
+				left[i]--
+				rec(append(cur, i), left)
+				left[i]++
+			}
+		}
+		if doneAll {
+			res = append(res, append([]int(nil), cur...))
+		}
+	}
+	rec(nil, append([]int(nil), segs...))
+	return res
 }
 
 // ---------------------------------------------------------------------------------------------
 
 func TestVerifC06(t *testing.T) {
+	inNetns := os.Getenv(c06NetnsEnv) == "1"
+	if !inNetns && os.Getenv(c06NetnsEnv) != "0" {
+		if c06RunInNetns(t) {
+			return
+		}
+	}
+	if inNetns && !c06SetupNetns() {
+		os.Exit(77)
+	}
 	out := vlib.Open("C06")
 	defer out.Close()
-	w := &c06World{dns: newC06DNS(t), logger: log.New(io.Discard, "", golog.Ldate)}
+	w := &c06World{t: t, dns: newC06DNS(), logger: log.New(io.Discard, "", golog.Ldate), ifaces: c06InterfaceNets()}
+	w.rec = newC06Recorder(inNetns, out)
 	for k, v := range c06Script {
 		w.dns.script[k] = v
+	}
+	if inNetns {
+		out.Count("dial-recorder:every-address-local")
+	} else {
+		out.Note("no private network namespace available: the dial recorder observes loopback destinations only")
+		out.Count("dial-recorder:loopback-only")
 	}
 	if rp := vlib.Replay(); rp != "" {
 		w.replay(t, out, rp)
 		return
 	}
 	c06CheckDialSite(out)
-	w.rebindDial(t, out)
 
 	r := vlib.NewRand("C06")
+	freePort := strconv.Itoa(w.rec.freePort())
+	pickDup := func(port string) string {
+		if !r.Chance(2, 3) {
+			return "\x00"
+		}
+		p, err := strconv.ParseUint(port, 10, 16)
+		if err != nil {
+			p = 443
+		}
+		s := c06DupPool[r.Intn(len(c06DupPool))]
+		if strings.Contains(s, "%d") {
+			s = fmt.Sprintf(s, p)
+		}
+		return s
+	}
+
+	// ---- several workers for one session: every interleaving of two workers over all ordered pairs of
+	// covert strings; three workers on sampled schedules
+	two := c06Interleavings([]int{4, 4})
+	for pi, pol := range c06SchedPolicies {
+		for a := range c06WorkerCoverts {
+			for b := range c06WorkerCoverts {
+				for si, sch := range two {
+					// quick tier: every schedule for the first policy, a third of them for the others
+					if vlib.Tier() != "thorough" && pi > 0 && (si+a+b)%3 != 0 {
+						continue
+					}
+					w.runSched(out, pol, []string{c06WorkerCoverts[a], c06WorkerCoverts[b]}, sch)
+				}
+			}
+		}
+	}
+	for i, n3 := 0, vlib.Budget(300, 30000); i < n3; i++ {
+		var sch []int
+		for len(sch) < 12 {
+			sch = append(sch, r.Intn(3))
+		}
+		cov := []string{c06WorkerCoverts[r.Intn(len(c06WorkerCoverts))], c06WorkerCoverts[r.Intn(len(c06WorkerCoverts))], c06WorkerCoverts[r.Intn(len(c06WorkerCoverts))]}
+		w.runSched(out, c06SchedPolicies[r.Intn(len(c06SchedPolicies))], cov, sch)
+	}
+
 	// ---- exhaustive: every host × port × framing under the fixed policies (generation 0), a subset under generation 1
 	var fixed []*c06Parsed
 	for _, p := range c06FixedPolicies {
@@ -677,12 +1256,13 @@ func TestVerifC06(t *testing.T) {
 	}
 	nPol := len(fixed)
 	if vlib.Tier() != "thorough" {
-		nPol = 5
+		nPol = 6
 	}
+	ports := append(append([]string(nil), c06Ports...), freePort)
 	for pi, pp := range fixed {
 		// quick tier: the fixed policies beyond the first nPol get a random third of the grid
 		for _, h := range c06Hosts {
-			for _, p := range c06Ports {
+			for _, p := range ports {
 				for f := 0; f < 6; f++ {
 					if f >= 3 && p != "80" {
 						continue // port-less framings once per host
@@ -690,11 +1270,11 @@ func TestVerifC06(t *testing.T) {
 					if pi >= nPol && !r.Chance(1, 3) {
 						continue
 					}
-					w.runC06(out, pp, c06Frame(h, p, f), 0)
+					w.runC06(out, pp, c06Frame(h, p, f), 0, pickDup(p))
 				}
 			}
 			if strings.HasPrefix(h, "rebind") || strings.HasPrefix(h, "multi") {
-				w.runC06(out, pp, c06Frame(h, "443", 0), 1)
+				w.runC06(out, pp, c06Frame(h, "443", 0), 1, pickDup("443"))
 			}
 		}
 		// keep the tracked-registration map small
@@ -724,15 +1304,23 @@ func TestVerifC06(t *testing.T) {
 					p.domains = append(p.domains, s)
 				}
 			}
+			p.public = r.Chance(1, 8)
 			pp = w.parsePolicy(p)
 		}
 		var s string
+		port := []string{"80", "443", freePort, "65535"}[r.Intn(4)]
 		switch k := r.Intn(10); {
-		case k < 5:
+		case k < 3:
 			s = c06Frame(c06Hosts[r.Intn(len(c06Hosts))], c06Ports[r.Intn(len(c06Ports))], r.Intn(3))
+		case k < 5:
+			// a grid host with a port the recorder listens on
+			s = c06Frame(c06Hosts[r.Intn(len(c06Hosts))], port, r.Intn(3))
 		case k < 7:
 			// random literal in a random textual form
-			s = c06Frame(c06RandomLiteral(r), strconv.Itoa(r.Intn(70000)), r.Intn(2))
+			if r.Bool() {
+				port = strconv.Itoa(r.Intn(70000))
+			}
+			s = c06Frame(c06RandomLiteral(r), port, r.Intn(2))
 		case k < 9:
 			// mutate a valid string: flip / insert / delete one byte
 			b := []byte(c06Frame(c06Hosts[r.Intn(len(c06Hosts))], "443", 0))
@@ -752,21 +1340,21 @@ func TestVerifC06(t *testing.T) {
 		default:
 			s = string(r.Bytes(r.Intn(24)))
 		}
-		w.runC06(out, pp, s, r.Intn(2))
+		w.runC06(out, pp, s, r.Intn(2), pickDup(port))
 	}
 }
 
 func c06RandomLiteral(r *vlib.Rand) string {
 	if r.Bool() {
 		ip := net.IP(r.Bytes(4))
-		switch r.Intn(5) {
+		switch r.Intn(6) {
 		case 0:
 			return "::ffff:" + ip.String()
 		case 1:
 			return fmt.Sprintf("::ffff:%x:%x", uint16(ip[0])<<8|uint16(ip[1]), uint16(ip[2])<<8|uint16(ip[3]))
-		case 2:
+		case 2, 3:
 			// one of the policy-relevant networks
-			return []string{"10.", "127.", "198.51.100.", "192.0.2."}[r.Intn(4)] + strconv.Itoa(r.Intn(256)) + []string{"", ".1", ".2.3"}[r.Intn(3)]
+			return []string{"10.", "127.", "198.51.100.", "192.0.2.", "203.0.113."}[r.Intn(5)] + strconv.Itoa(r.Intn(256)) + []string{"", ".1", ".2.3"}[r.Intn(3)]
 		default:
 			return ip.String()
 		}
@@ -800,43 +1388,81 @@ func c06RandomLiteral(r *vlib.Rand) string {
 	}
 }
 
-// replay re-runs `c06|gen=G|B=…;A=…;D=…|<covert hex>` lines of a replay file.
+func c06ParsePolicy(s string) c06Policy {
+	var p c06Policy
+	for _, part := range strings.Split(s, ";") {
+		kv := strings.SplitN(part, "=", 2)
+		if len(kv) != 2 || kv[1] == "" {
+			continue
+		}
+		switch kv[0] {
+		case "B":
+			p.block = strings.Split(kv[1], ",")
+		case "A":
+			p.allow = strings.Split(kv[1], ",")
+		case "D":
+			p.domains = strings.Split(kv[1], ",")
+		case "P":
+			p.public = kv[1] == "1"
+		}
+	}
+	return p
+}
+
+// replay re-runs `c06|gen=G|B=…;A=…;D=…|<covert hex>|<re-sent covert hex>` and
+// `c06sched|<policy>|<covert hex>,…|<schedule>` lines of a replay file.
 func (w *c06World) replay(t *testing.T, out *vlib.Out, path string) {
 	b, err := os.ReadFile(path)
 	if err != nil {
 		t.Fatal(err)
 	}
 	for _, line := range strings.Split(string(b), "\n") {
-		if !strings.HasPrefix(line, "c06|") {
-			continue
-		}
-		f := strings.SplitN(line, "|", 4)
-		if len(f) != 4 {
-			t.Fatalf("bad replay line %q", line)
-		}
-		gen, _ := strconv.Atoi(strings.TrimPrefix(f[1], "gen="))
-		var p c06Policy
-		for _, part := range strings.Split(f[2], ";") {
-			kv := strings.SplitN(part, "=", 2)
-			if len(kv) != 2 || kv[1] == "" {
-				continue
+		switch {
+		case strings.HasPrefix(line, "c06sched|"):
+			f := strings.SplitN(line, "|", 4)
+			if len(f) != 4 {
+				t.Fatalf("bad replay line %q", line)
 			}
-			switch kv[0] {
-			case "B":
-				p.block = strings.Split(kv[1], ",")
-			case "A":
-				p.allow = strings.Split(kv[1], ",")
-			case "D":
-				p.domains = strings.Split(kv[1], ",")
+			var coverts []string
+			for _, h := range strings.Split(f[2], ",") {
+				c, err := hex.DecodeString(h)
+				if err != nil {
+					t.Fatalf("bad covert hex in %q", line)
+				}
+				coverts = append(coverts, string(c))
 			}
+			var sch []int
+			for _, ch := range f[3] {
+				sch = append(sch, int(ch-'0'))
+			}
+			pol := c06ParsePolicy(f[1])
+			w.runSched(out, pol, coverts, sch)
+			fmt.Printf("REPLAY workers %q schedule %s policy %s\n", coverts, f[3], pol.String())
+		case strings.HasPrefix(line, "c06|"):
+			f := strings.SplitN(line, "|", 5)
+			if len(f) < 4 {
+				t.Fatalf("bad replay line %q", line)
+			}
+			gen, _ := strconv.Atoi(strings.TrimPrefix(f[1], "gen="))
+			p := c06ParsePolicy(f[2])
+			cov, err := hex.DecodeString(f[3])
+			if err != nil {
+				t.Fatalf("bad covert hex in %q", line)
+			}
+			dup := "\x00"
+			if len(f) == 5 {
+				d, err := hex.DecodeString(f[4])
+				if err != nil {
+					t.Fatalf("bad covert hex in %q", line)
+				}
+				dup = string(d)
+			}
+			pp := w.parsePolicy(p)
+			w.runC06(out, pp, string(cov), gen, dup)
+			w.dns.gen.Store(int64(gen))
+			w.dns.beginCall()
+			got, lookup := pp.conf.ParseOrResolveBlocklisted(string(cov))
+			fmt.Printf("REPLAY covert %q policy %s -> %q lookup=%v (then the session registered again with %q)\n", cov, p.String(), got, lookup, dup)
 		}
-		cov, err := hex.DecodeString(f[3])
-		if err != nil {
-			t.Fatalf("bad covert hex in %q", line)
-		}
-		pp := w.parsePolicy(p)
-		w.runC06(out, pp, string(cov), gen)
-		got, lookup := pp.conf.ParseOrResolveBlocklisted(string(cov))
-		fmt.Printf("REPLAY covert %q policy %s -> %q lookup=%v\n", cov, p.String(), got, lookup)
 	}
 }
